@@ -740,6 +740,23 @@ func (ex *extractor) decisions(f *Facts) {
 			}
 		}
 	}
+	// the stage order of exec(): the engine-level calls (Exec*, the slot resolution, the window slice) in source order
+	if fd := ex.funcs["Query.exec"]; fd != nil && fd.Body != nil {
+		ast.Inspect(fd.Body, func(n ast.Node) bool {
+			switch t := n.(type) {
+			case *ast.FuncLit:
+				return false
+			case *ast.CallExpr:
+				name := exprText(t.Fun)
+				if strings.HasPrefix(name, "Exec") || name == "resolveAsyncSlots" || name == "copy.exec" || name == "query.adopt" {
+					f.Decisions["stages"] = append(f.Decisions["stages"], name)
+				}
+			case *ast.SliceExpr:
+				f.Decisions["stages"] = append(f.Decisions["stages"], "slice:"+stmtText(t))
+			}
+			return true
+		})
+	}
 	if fd := ex.funcs["Query.exec"]; fd != nil && fd.Body != nil {
 		for _, st := range fd.Body.List {
 			txt := stmtText(st)
@@ -1680,7 +1697,7 @@ func main() {
 		}
 		sb.WriteString("def " + k + "Events : List Ev := [" + strings.Join(evs, ", ") + "]\n")
 	}
-	for _, k := range []string{"sortCompare", "window", "join"} {
+	for _, k := range []string{"sortCompare", "window", "join", "stages"} {
 		sb.WriteString("def decisions" + strings.ToUpper(k[:1]) + k[1:] + " : List String :=\n  " + leanStrList(f.Decisions[k]) + "\n\n")
 	}
 	for _, fn := range []string{"ComparisonExpr", "BinaryExpr", "UnaryExpr"} {
